@@ -64,9 +64,8 @@ func c11Body(peers []string, clients [][]string) func(x *sched.X) {
 					if err != nil {
 						panic(err)
 					}
-					if _, err := full[0].Notary.Propose(ctx, pt); err != nil {
-						panic("c11 sched: propose failed: " + err.Error())
-					}
+					// a refused proposal is not an accepted item: the oracle only speaks about what the origin holds
+					full[0].Notary.Propose(ctx, pt)
 				}
 			}))
 		}
